@@ -133,8 +133,19 @@ func Verif_KRL() {
 	// concrete bucket (any value would do: the bucket only selects a table slot)
 	vrt.Assume(bucket == BucketIndex(0x5A5A5A)&(BucketIndex(1)<<bits-1))
 
+	// common > 0: every key carries the same `common` bytes right after the bucket bytes
+	// (keys that share many leading bytes: identity multihashes, inlined data), so stored
+	// prefixes are longer than `common` bytes
+	common := vrt.Param("common", 0)
 	mkKey := func(label string) []byte {
 		k := vrt.Bytes(label, strip+L)
+		if common > 0 {
+			long := append([]byte{}, k[:strip]...)
+			for c := 0; c < common; c++ {
+				long = append(long, 0xAB)
+			}
+			k = append(long, k[strip:]...)
+		}
 		// the key must fall into the bucket
 		p := BucketIndex(uint32(k[0])|uint32(k[1])<<8|uint32(k[2])<<16|uint32(k[3])<<24) & (BucketIndex(1)<<bits - 1)
 		vrt.Assume(p == bucket)
@@ -146,7 +157,7 @@ func Verif_KRL() {
 	var data []byte
 	for i := 0; i < n; i++ {
 		k := mkKey("key")
-		l := 1 + vrt.Choose("plen", L)
+		l := common + 1 + vrt.Choose("plen", L)
 		loc := types.Block{Offset: types.Position(vrt.U64("off")), Size: types.Size(vrt.U32("size"))}
 		for j := 0; j < i; j++ {
 			vrt.Assume(loc != ents[j].loc)                                               // I4
